@@ -181,7 +181,7 @@ func mk(op string, sort Sort, args ...*Term) *Term {
 	return t
 }
 
-const tableCap = 4096
+const tableCap = 20000
 
 // Table lifting: an operation whose operands are all constants or ite-trees over
 // constants is pushed to the leaves, where it is evaluated exactly by the host. Values
@@ -628,6 +628,14 @@ func FPBin(op string, a, b *Term) *Term {
 }
 
 func FPCmp(op string, a, b *Term) *Term {
+	if Same(a, b) {
+		switch op {
+		case "fp.lt", "fp.gt":
+			return TFalse
+		default: // fp.eq, fp.leq, fp.geq: true unless NaN
+			return Not(FPPred("fp.isNaN", a))
+		}
+	}
 	if liftable(a, b) {
 		return lift2(func(x, y *Term) *Term { return FPCmp(op, x, y) }, a, b)
 	}
